@@ -8,7 +8,7 @@ linear arithmetic (+, -, * by constants, unary -), three sound modular rewrites.
 
 NEG = {"<": ">=", "<=": ">", ">": "<=", ">=": "<", "==": "!=", "!=": "==",
        "is": "is not", "is not": "is", "in": "not in", "not in": "in"}
-FLIP = {"<": ">", "<=": ">=", ">": "<", ">=": "<=", "==": "==", "!=": "!="}
+FLIP = {"<": ">", "<=": ">=", ">": "<", ">=": "<=", "==": "==", "!=": "!=", "is": "is", "is not": "is not"}
 
 
 def const(v):
@@ -63,7 +63,7 @@ def mk_cmp(op, l, r):
         # orientation: constant to the right; otherwise ordered textually for == / !=
         if is_const(l) and not is_const(r):
             l, r, op = r, l, FLIP[op]
-        elif op in ("==", "!=") and not is_const(r) and repr(l) > repr(r):
+        elif op in ("==", "!=", "is", "is not") and not is_const(r) and repr(l) > repr(r):
             l, r = r, l
         # x - y < 0  style is left alone
     if is_const(l) and is_const(r) and op in ("==", "!=", "<", "<=", ">", ">="):
